@@ -79,11 +79,12 @@ func Sync(logger *log.Logger, oldVersion string, newVersion string, dryRun bool)
 		return err
 	}
 	resp, err := client.Do(req)
-	if resp.StatusCode != http.StatusOK {
-		return fmt.Errorf(".sync file not found")
-	}
 	if err != nil {
 		return err
+	}
+	defer resp.Body.Close()
+	if resp.StatusCode != http.StatusOK {
+		return fmt.Errorf(".sync file not found")
 	}
 	bar := progressbar.DefaultBytes(
 		resp.ContentLength,
@@ -244,25 +245,82 @@ func Sync(logger *log.Logger, oldVersion string, newVersion string, dryRun bool)
 	fmt.Printf("need %d chunks\n", len(ranges))
 
 	if !dryRun {
+		// fetchRange copies bytes [offset, offset+length) of the new version to w.
+		fetchRange := func(offset uint64, length uint64, w io.Writer) error {
+			if length == 0 {
+				return nil
+			}
+			req, err := http.NewRequest("GET", newVersion, nil)
+			if err != nil {
+				return err
+			}
+			req.Header.Set("Range", fmt.Sprintf("bytes=%d-%d", offset, offset+length-1))
+			resp, err := client.Do(req)
+			if err != nil {
+				return err
+			}
+			defer resp.Body.Close()
+			if resp.StatusCode != http.StatusPartialContent {
+				return fmt.Errorf("non-OK range request")
+			}
+			n, err := io.Copy(w, resp.Body)
+			if err != nil {
+				return err
+			}
+			if uint64(n) != length {
+				return fmt.Errorf("short range response")
+			}
+			return nil
+		}
+
 		req, err := http.NewRequest("HEAD", newVersion, nil)
-		resp, err := client.Do(req)
-		targetLength, _ := strconv.Atoi(resp.Header.Get("Content-Length"))
-
-		tmpFilename := oldVersion + ".tmp"
-		outfile, err := os.Create(tmpFilename)
-		outfile.Truncate(int64(targetLength))
-
-		// write the first 16 kb to the new file
-		req, err = http.NewRequest("GET", newVersion, nil)
-		req.Header.Set("Range", "bytes=0-16383")
-		resp, err = client.Do(req)
-		bufferedReader = bufio.NewReader(io.TeeReader(resp.Body, outfile))
 		if err != nil {
 			return err
 		}
+		resp, err := client.Do(req)
+		if err != nil {
+			return err
+		}
+		resp.Body.Close()
+		if resp.StatusCode != http.StatusOK {
+			return fmt.Errorf("new version not found")
+		}
+		targetLength, err := strconv.Atoi(resp.Header.Get("Content-Length"))
+		if err != nil {
+			return err
+		}
+
+		tmpFilename := oldVersion + ".tmp"
+		outfile, err := os.Create(tmpFilename)
+		if err != nil {
+			return err
+		}
+		defer outfile.Close()
+		if err = outfile.Truncate(int64(targetLength)); err != nil {
+			return err
+		}
+
+		// write the first 16 kb to the new file
+		req, err = http.NewRequest("GET", newVersion, nil)
+		if err != nil {
+			return err
+		}
+		req.Header.Set("Range", "bytes=0-16383")
+		resp, err = client.Do(req)
+		if err != nil {
+			return err
+		}
+		defer resp.Body.Close()
+		if resp.StatusCode != http.StatusPartialContent {
+			return fmt.Errorf("non-OK range request")
+		}
+		bufferedReader = bufio.NewReader(io.TeeReader(resp.Body, outfile))
 		bytesData, err := io.ReadAll(bufferedReader)
 		if err != nil {
 			return err
+		}
+		if len(bytesData) < HeaderV3LenBytes {
+			return fmt.Errorf("short range response")
 		}
 		newHeader, err := DeserializeHeader(bytesData[0:HeaderV3LenBytes])
 		if err != nil {
@@ -271,23 +329,21 @@ func Sync(logger *log.Logger, oldVersion string, newVersion string, dryRun bool)
 
 		// write the metadata section to the new file
 		metadataWriter := io.NewOffsetWriter(outfile, int64(newHeader.MetadataOffset))
-		req, err = http.NewRequest("GET", newVersion, nil)
-		req.Header.Set("Range", fmt.Sprintf("bytes=%d-%d", newHeader.MetadataOffset, newHeader.MetadataOffset+newHeader.MetadataLength-1))
-		resp, err = client.Do(req)
-		io.Copy(metadataWriter, resp.Body)
+		if err = fetchRange(newHeader.MetadataOffset, newHeader.MetadataLength, metadataWriter); err != nil {
+			return err
+		}
 
 		// write the leaf directories, if any, to the new file (show progress)
 		leafWriter := io.NewOffsetWriter(outfile, int64(newHeader.LeafDirectoryOffset))
-		req, err = http.NewRequest("GET", newVersion, nil)
-		req.Header.Set("Range", fmt.Sprintf("bytes=%d-%d", newHeader.LeafDirectoryOffset, newHeader.LeafDirectoryOffset+newHeader.LeafDirectoryLength-1))
-		resp, err = client.Do(req)
-
 		leafBar := progressbar.DefaultBytes(
 			int64(newHeader.LeafDirectoryLength),
 			"downloading leaf directories",
 		)
-		io.Copy(leafWriter, io.TeeReader(resp.Body, leafBar))
+		err = fetchRange(newHeader.LeafDirectoryOffset, newHeader.LeafDirectoryLength, io.MultiWriter(leafWriter, leafBar))
 		leafBar.Close()
+		if err != nil {
+			return err
+		}
 
 		fmt.Println(len(have), "local chunks")
 		bar := progressbar.DefaultBytes(
@@ -299,7 +355,13 @@ func Sync(logger *log.Logger, oldVersion string, newVersion string, dryRun bool)
 		for _, h := range haveRanges {
 			chunkWriter := io.NewOffsetWriter(outfile, int64(newHeader.TileDataOffset+h.DstOffset))
 			r := io.NewSectionReader(oldFile, int64(oldHeader.TileDataOffset+h.SrcOffset), int64(h.Length))
-			io.Copy(io.MultiWriter(chunkWriter, bar), r)
+			n, err := io.Copy(io.MultiWriter(chunkWriter, bar), r)
+			if err != nil {
+				return err
+			}
+			if uint64(n) != h.Length {
+				return fmt.Errorf("short read of local chunk")
+			}
 		}
 
 		oldFile.Close()
@@ -315,24 +377,59 @@ func Sync(logger *log.Logger, oldVersion string, newVersion string, dryRun bool)
 
 		downloadPart := func(task multiRange) error {
 			req, err := http.NewRequest("GET", newVersion, nil)
+			if err != nil {
+				return err
+			}
 			req.Header.Set("Range", fmt.Sprintf("bytes=%s", task.str))
 			resp, err := client.Do(req)
+			if err != nil {
+				return err
+			}
+			defer resp.Body.Close()
 			if resp.StatusCode != http.StatusPartialContent {
 				return fmt.Errorf("non-OK multirange request")
 			}
 
-			_, params, err := mime.ParseMediaType(resp.Header.Get("Content-Type"))
-			if err != nil {
-				return err
+			copyChunk := func(r srcDstRange, body io.Reader) error {
+				chunkWriter := io.NewOffsetWriter(outfile, int64(newHeader.TileDataOffset+r.DstOffset))
+				n, err := io.Copy(io.MultiWriter(chunkWriter, bar), body)
+				if err != nil {
+					return err
+				}
+				if uint64(n) != r.Length {
+					return fmt.Errorf("range response does not match the requested range")
+				}
+				return nil
+			}
+
+			mediaType, params, err := mime.ParseMediaType(resp.Header.Get("Content-Type"))
+			if err != nil || !strings.HasPrefix(mediaType, "multipart/") {
+				// a request for a single range is answered without multipart framing
+				if len(task.ranges) != 1 {
+					return fmt.Errorf("non-multipart response to a multirange request")
+				}
+				r := task.ranges[0]
+				want := fmt.Sprintf("bytes %d-%d/", newHeader.TileDataOffset+r.SrcOffset, newHeader.TileDataOffset+r.SrcOffset+r.Length-1)
+				if !strings.HasPrefix(resp.Header.Get("Content-Range"), want) {
+					return fmt.Errorf("range response does not match the requested range")
+				}
+				return copyChunk(r, resp.Body)
 			}
 
 			mr := multipart.NewReader(resp.Body, params["boundary"])
 
 			for _, r := range task.ranges {
-				part, _ := mr.NextPart()
-				_ = part.Header.Get("Content-Range")
-				chunkWriter := io.NewOffsetWriter(outfile, int64(newHeader.TileDataOffset+r.DstOffset))
-				io.Copy(io.MultiWriter(chunkWriter, bar), part)
+				part, err := mr.NextPart()
+				if err != nil {
+					return err
+				}
+				want := fmt.Sprintf("bytes %d-%d/", newHeader.TileDataOffset+r.SrcOffset, newHeader.TileDataOffset+r.SrcOffset+r.Length-1)
+				if !strings.HasPrefix(part.Header.Get("Content-Range"), want) {
+					return fmt.Errorf("range response does not match the requested range")
+				}
+				if err := copyChunk(r, part); err != nil {
+					return err
+				}
 			}
 			return nil
 		}
@@ -371,7 +468,9 @@ func Sync(logger *log.Logger, oldVersion string, newVersion string, dryRun bool)
 		}
 
 		// atomically rename the old file to the new file.
-		outfile.Close()
+		if err = outfile.Close(); err != nil {
+			return err
+		}
 		err = os.Rename(tmpFilename, oldVersion)
 		if err != nil {
 			return err
